@@ -151,6 +151,7 @@ def run(tier, seed, replay=None):
     else:
         scripts = gen_scripts(seed, 2500 if thorough else 400, thorough)
         pred_only = [close_payload_script()]
+    scripts = cc.staged(exe, scripts, lambda s_, g_: bool(cc.pred_c05(cc.go_view(s_, g_))))
     go, logs = cc.run_go(exe, scripts, shards=8)
     flag, diffs, counts = cc.pick_variant(scripts, go) if scripts else ((False, False), [], {})
     if diffs is None:
@@ -167,8 +168,10 @@ def run(tier, seed, replay=None):
         evals += 1
         fam = s.get("family", "?")
         dist[fam] = dist.get(fam, 0) + 1
-        if g is None or g.get("st") in ("watchdog", "skipped"):
-            res.violation("harness-run", "no observation for script %s: %s" % (s["id"], (logs or [""])[0][-800:]), dict(kind="harness", script=s), False)
+        if g is None or g.get("st") in ("watchdog", "skipped", "crash"):
+            if "crash" not in reported:
+                reported.add("crash")
+                cc.crash_violation(res, PID, s, g)
             continue
         view = cc.go_view(s, g)
         nframes += len(view["frames"])
